@@ -23,6 +23,7 @@ type deployCase struct {
 	Store    string         `json:"store"`
 	Result   *sim.Result    `json:"result,omitempty"`
 	Events   []string       `json:"events,omitempty"`
+	PluginLayer bool        `json:"plugin_layer,omitempty"` // decorated plugins + second plugin (sim.BootOpts.PluginLayer)
 }
 
 // planFromEvents returns the sum of the counts of the Alloc calls that succeeded and whether the
@@ -55,9 +56,19 @@ func TestC12(t *testing.T) {
 	env := vkit.Load("C12")
 	rec := vkit.NewRec(env)
 	defer rec.Finish()
-	w := newWorld(t, env, rec, false)
+	// odd batches: plugin layer (every plugin call inside the resource manager is a fault position; second plugin)
+	pluginLayer := env.Batch%2 == 1
+	var replayed deployCase
+	if env.Replay != "" {
+		if err := vkit.ReadReplay(env.Replay, &replayed); err != nil {
+			t.Fatal(err)
+		}
+		pluginLayer = replayed.PluginLayer
+	}
+	w := newWorldOpts(t, env, rec, sim.BootOpts{PluginLayer: pluginLayer})
 	ctx := context.Background()
 	r := env.Rand("c12")
+	rs := env.Rand("c12-slots")
 
 	runOne := func(dc *deployCase, rebuild bool) {
 		if rebuild {
@@ -182,12 +193,8 @@ func TestC12(t *testing.T) {
 	}
 
 	if env.Replay != "" {
-		var dc deployCase
-		if err := vkit.ReadReplay(env.Replay, &dc); err != nil {
-			t.Fatal(err)
-		}
 		for i := 0; i < 6; i++ {
-			runOne(&dc, true)
+			runOne(&replayed, true)
 		}
 		return
 	}
@@ -201,18 +208,30 @@ func TestC12(t *testing.T) {
 		for i := 0; i < r.Intn(3); i++ {
 			setup = append(setup, sim.GenCreate(r, topo))
 		}
+		if pluginLayer {
+			for i := range setup {
+				withSlots(rs, &setup[i])
+			}
+		}
 		// several creates on the same evolving state, then fault enumeration for one of them
 		if err := w.rebuild(topo, setup); err != nil {
 			rec.Inconclusive("rebuild failed: %v", err)
 			continue
 		}
 		for i := 0; i < 6; i++ {
-			runOne(&deployCase{Topology: topo, Setup: setup, Op: sim.GenCreate(r, topo), Store: "etcd"}, false)
+			o := sim.GenCreate(r, topo)
+			if pluginLayer {
+				withSlots(rs, &o)
+			}
+			runOne(&deployCase{Topology: topo, Setup: setup, Op: o, Store: "etcd", PluginLayer: pluginLayer}, false)
 		}
 		op := sim.GenCreate(r, topo)
 		op.Count = 2 + r.Intn(3)
-		for k := 1; k <= 90; k++ {
-			dc := &deployCase{Topology: topo, Setup: setup, Op: op, Fault: &sim.FaultPlan{Kind: "fail", Index: k}, Store: "etcd"}
+		if pluginLayer {
+			withSlots(rs, &op)
+		}
+		for k := 1; k <= 200; k++ {
+			dc := &deployCase{Topology: topo, Setup: setup, Op: op, Fault: &sim.FaultPlan{Kind: "fail", Index: k}, Store: "etcd", PluginLayer: pluginLayer}
 			runOne(dc, true)
 			if dc.Result == nil || dc.Result.PlanSize < k { // PlanSize = boundary calls counted; k beyond the op's calls
 				break
